@@ -10,3 +10,6 @@ import PanderaModel.Props.C05
 #print axioms Pandera.C05.component_attrs_unchanged
 #print axioms Pandera.C05.regex_column_name_unchanged
 #print axioms Pandera.C05.validation_histories_preserve
+#print axioms Pandera.C05.schema_side_writes_are_owned
+#print axioms Pandera.C05.schema_mutation_scan_nonempty
+#print axioms Pandera.C05.scanned_functions_leave_entry_objects
